@@ -27,6 +27,13 @@ def load_contracts():
 
 def _worker(arg):
     full, tier, timeout_ms, cfilter = arg
+    crash = os.environ.get("PYVC_TEST_CRASH")      # self-test of the crash handling: "<task substring>[:once:<marker file>]"
+    if crash:
+        sub, _, rest = crash.partition(":once:")
+        if sub in full and (not rest or not os.path.exists(rest)):
+            if rest:
+                open(rest, "w").close()
+            os.kill(os.getpid(), 11)
     from pyvc import harness
     import signal
 
@@ -62,6 +69,47 @@ def load_known():
         return []
     with open(p) as fh:
         return json.load(fh)
+
+
+def _run_resilient(work, jobs):
+    """Run the tasks in worker processes.  A worker that dies (a solver segfault has been observed once in libz3) must neither
+    hang the check nor be mistaken for a verdict: the pool is rebuilt, unfinished tasks are re-run one per fresh process, and a
+    task whose process dies again is reported as a checker error for that task."""
+    from concurrent.futures import ProcessPoolExecutor, as_completed
+    from concurrent.futures.process import BrokenProcessPool
+    outs, pending = [], list(work)
+    for _round in range(2):                 # a second pooled round before isolating tasks one per process
+      if not pending:
+          break
+      try:
+        with ProcessPoolExecutor(max_workers=jobs, mp_context=mp.get_context("fork")) as ex:
+            futs = {ex.submit(_worker, w): w for w in pending}
+            for f in as_completed(futs):
+                try:
+                    outs.append(f.result())
+                    pending.remove(futs[f])
+                except BrokenProcessPool:
+                    raise
+                except Exception as e:      # a Python exception in the worker wrapper itself
+                    outs.append({"task": futs[f][0], "prop": futs[f][0].split("/")[0], "results": [], "functions": {}, "lib_used": [], "trusted": [],
+                                 "status": "error", "samples": [], "detail": "%s: %s" % (type(e).__name__, e)})
+                    pending.remove(futs[f])
+      except BrokenProcessPool:
+        pass
+    for w in list(pending):
+        out = None
+        for attempt in range(2):
+            try:
+                with ProcessPoolExecutor(max_workers=1, mp_context=mp.get_context("fork")) as ex1:
+                    out = ex1.submit(_worker, w).result()
+                break
+            except BrokenProcessPool:
+                out = None
+        if out is None:
+            out = {"task": w[0], "prop": w[0].split("/")[0], "results": [], "functions": {}, "lib_used": [], "trusted": [], "status": "error",
+                   "samples": [], "detail": "the worker process died three times while running this task (solver crash); nothing is known about it"}
+        outs.append(out)
+    return outs
 
 
 def main(argv=None):
@@ -123,8 +171,7 @@ def main(argv=None):
     if jobs == 1:
         outs = [_worker(w) for w in work]
     else:
-        with mp.Pool(jobs, maxtasksperchild=4) as pool:
-            outs = list(pool.imap_unordered(_worker, work, chunksize=1))
+        outs = _run_resilient(work, jobs)
     outs.sort(key=lambda o: o["task"])
 
     dead_dep_errors = ["dependency pattern %r matches no task" % d for d in dead_deps]
